@@ -307,7 +307,7 @@ Section Top.
   Theorem pmwm_fallback_stable sw sentinels sampling (seqs : list (list A)) size p os :
     seqs <> [] -> goes_parallel sw (length seqs) size p = false ->
     Forall (fun l => sorted l) seqs -> size <= total seqs ->
-    seqmerge_stable_spec ltb seqmerge ->
+    seqmerge_stable_spec_at ltb seqmerge sentinels ->
     exists ts cur, pmwm sw true sentinels sampling seqs size p os =
                    Some {| p_threads := ts; p_cursors := cur; p_ret := size |} /\
                    contiguous ts 0 size /\ output ts = firstn size (smerge seqs) /\ length ts = 1.
